@@ -61,6 +61,8 @@ SYMBOLS: Dict[str, dict] = {
     "fail": dict(node=_n("VFail"), kind="op", proc="VFail", params=[], cfg={}, reads=[]),
     "failif": dict(node=_n("VFailIf"), kind="op", proc="VFailIf", params=[("a", 0.0)], cfg={}, reads=["a"]),
     "interrupt": dict(node=_n("VInterrupt"), kind="op", proc="VInterrupt", params=[], cfg={}, reads=[]),
+    "abort": dict(node=_n("VAbort"), kind="op", proc="VAbort", params=[], cfg={}, reads=[]),
+    "sysexit": dict(node=_n("VSysExit"), kind="op", proc="VSysExit", params=[], cfg={}, reads=[]),
     "sum": dict(node=_n("VSum"), kind="op", proc="VSum", **{"in": "C"}, params=[], cfg={}, reads=[]),
     # probes
     "probe_factor": dict(node=_n("VProbe", context_key="factor"), kind="probe", proc="VProbe", ckey="factor", params=[], cfg={}, reads=["factor"]),
@@ -74,6 +76,8 @@ SYMBOLS: Dict[str, dict] = {
     "del_a": dict(node=_n("delete:a"), kind="ctx", op="delete", src="a", params=[("a", NODEF)], cfg={}, reads=["a"]),
     "tmpl_a": dict(node=_n('template:"v_{r}":a'), kind="ctx", op="template", tmpl="v_{r}", dst="a", params=[("r", NODEF)], cfg={}, reads=["r", "a"]),
     "tmpl_path": dict(node=_n('template:"o_{a}{b}.txt":path'), kind="ctx", op="template", tmpl="o_{a}{b}.txt", dst="path", params=[("a", NODEF), ("b", NODEF)], cfg={}, reads=["a", "b", "path"]),
+    # create-and-require-in-one-node: reads key a and writes key a
+    "tmpl_aa": dict(node=_n('template:"{a}_x":a'), kind="ctx", op="template", tmpl="{a}_x", dst="a", params=[("a", NODEF)], cfg={}, reads=["a"]),
     # slicers
     "slice_mul": dict(node=_n("slice:VMul:FloatDataCollection"), kind="slicer_op", proc="VMul", params=[("factor", NODEF)], cfg={}, reads=["factor"]),
     "slice_muldef": dict(node=_n("slice:VMulDef:FloatDataCollection"), kind="slicer_op", proc="VMulDef", params=[("factor", 2.0)], cfg={}, reads=["factor"]),
@@ -83,6 +87,8 @@ SYMBOLS: Dict[str, dict] = {
                       kind="sweep_src", proc="VSrc", vars={"t": [1.0, 2.0, 3.0]}, params=[], cfg={}, reads=["t_values"]),
     "sweep_op": dict(node=_sweep("VMul", {"factor": "t"}, {"t": {"values": [1.0, 2.0]}}, "FloatDataCollection"),
                      kind="sweep_op", proc="VMul", vars={"t": [1.0, 2.0]}, params=[], cfg={}, reads=["t_values"]),
+    "sweep_probe": dict(node=_sweep("VFactorProbe", {"factor": "t"}, {"t": {"values": [1.0, 2.0]}}, None, context_key="r"),
+                        kind="sweep_probe", proc="VFactorProbe", ckey="r", vars={"t": [1.0, 2.0]}, params=[], cfg={}, reads=["t_values", "r"]),
     # sinks
     "sink_cfg": dict(node=_n("VTxtSink", {"path": "out_cfg.txt"}), kind="sink", proc="VTxtSink", params=[("path", NODEF)], cfg={"path": "out_cfg.txt"}, reads=["path"]),
     "sink_ctx": dict(node=_n("VTxtSink"), kind="sink", proc="VTxtSink", params=[("path", NODEF)], cfg={}, reads=["path"]),
@@ -93,12 +99,12 @@ SYMBOLS: Dict[str, dict] = {
     "unknown": dict(node=_n("VNoSuchProcessor"), kind="invalid", error="UnknownProcessorError", params=[], cfg={}, reads=[]),
 }
 
-ALL = [s for s in SYMBOLS if s != "interrupt"]  # KeyboardInterrupt-class aborts are exercised by C06 only
+ALL = [s for s in SYMBOLS if s not in ("interrupt", "abort", "sysexit")]  # KeyboardInterrupt-class aborts are exercised by C06 only
 # one representative per kind
 PRIME = ["src", "srcdef", "paysrc", "mul", "muldef", "two", "ctxw", "fail", "sum", "probe_factor", "gainprobe",
          "ren_r_factor", "del_factor", "tmpl_a", "slice_mul", "sweep_op", "sink_ctx", "bogus"]
 # symbols whose failures are deliberate processor errors (removed for C02)
-DELIBERATE = {"fail", "failif", "badw", "interrupt"}
+DELIBERATE = {"fail", "failif", "badw", "interrupt", "abort", "sysexit"}
 
 DATA_KINDS = ["none", "float", "coll"]
 
